@@ -300,6 +300,9 @@ def check_property(prop, tier, jobs, level_text, assumptions, functions_note="",
     known = load_known()
     os.makedirs(os.path.join(VERIF, "evidence"), exist_ok=True)
     os.makedirs(os.path.join(VERIF, "replays"), exist_ok=True)
+    for f in os.listdir(os.path.join(VERIF, "replays")):
+        if f.startswith(prop + "_"):
+            os.unlink(os.path.join(VERIF, "replays", f))
     try:
         build_repo_bc()
     except Inconclusive as e:
